@@ -16,7 +16,8 @@ from vq.ref import optable, plan
 
 META = {
     'level': 'exploration',
-    'rule': ('Generated models (1..2 signatures) x calibration-requiring '
+    'rule': ('Generated models (1..2 signatures; a fifth contain a stateful '
+             'SVDF operator) x calibration-requiring '
              'recipes x datasets of 1..6 samples of different magnitudes x '
              'every way the dataset is cut into consecutive resumed sessions '
              '(drawn). The check recomputes per-sample min/max of every tensor '
